@@ -109,6 +109,8 @@ class Rec:
                 r["post"] = [proj_item(res, self.decl)]
             elif result == "items":
                 r["post"] = [proj_item(x, self.decl) for x in res]
+            elif result == "none":
+                pass
             elif result == "int":
                 r["res"] = int(res)
             elif result == "offset":
@@ -225,6 +227,30 @@ def probes(rec: Rec, tl, cuts, r, budget):
                 return tl.append(arg, sort=sort)
             cat.append(("append", lambda do=do, rows=rows, sort=sort, form=form: rec.run(
                 "append", tl, do, {"add": rows, "sort": sort, "form": form}, check_share=True)))
+    # appending a frame that lacks some of the receiver's columns (a list of a base class, a hand-made frame): the argument
+    # itself must come back as it was handed over
+    def do_partial():
+        full = cls([mk_item(cls, r.choice(cuts), 0, 7)]).df
+        keep = [c for c in full.columns if c in ("offset", "column", "length", "bpm", "metronome")]
+        if len(keep) == len(full.columns):
+            keep = keep[:-1]
+        arg = full[keep].copy()
+        holder = {"pre": [[str(c) for c in arg.columns], arg.to_json()]}
+        try:
+            tl.append(arg)
+        finally:
+            rec_ = holder
+            rec_["after"] = [[str(c) for c in arg.columns], arg.to_json()]
+            do_partial.last = rec_
+        return None
+    if len(cls([mk_item(cls, 0, 0, 7)]).df.columns) > 1:
+        def run_partial():
+            rec.run("append_partial", tl, do_partial, {"form": "partial_df"}, result="none")
+            last = getattr(do_partial, "last", {"pre": [], "after": ["?"]})
+            rec.out[-1]["arg_pre"], rec.out[-1]["arg_after"] = last["pre"], last.get("after", ["?"])
+            if rec.out[-1]["exc"]:
+                rec.out[-1]["exc"] = ""          # whether such an append is accepted is not the point here
+        cat.append(("append_partial", run_partial))
     # appending nothing
     for sort in (False, True):
         cat.append(("append", lambda sort=sort: rec.run(
